@@ -117,6 +117,7 @@ class Summary(object):
         self.ret = set()           # (root, level)
         self.returns = []          # (Return node, set)
         self.discarded = []        # Call nodes used as expression statements (for PU3)
+        self.escapes = []          # (node, target text, {(root, level)}): values that may alias a non-self parameter stored into self's state
         self.unknown_calls = []
 
     def mutated_params(self):
@@ -269,6 +270,9 @@ class Walker(object):
         if isinstance(f, ast.Name):
             if f.id in self.local_funcs:
                 out.append(self.local_funcs[f.id])
+            elif f.id in getattr(self, 'local_alias', {}) and self.local_alias[f.id] in self.local_funcs:
+                # X = kwargs.get('key', local_function): the default callee (a caller-supplied one is outside the analysis)
+                out.append(self.local_funcs[self.local_alias[f.id]])
             else:
                 fi = self.m.resolve_callable(self.fi.mod, f)
                 if fi is not None:
@@ -434,6 +438,10 @@ class Walker(object):
             deep = isinstance(t, ast.Attribute) and ('=' + t.attr) in self.pur.mutating_methods() and not (
                 isinstance(t.value, ast.Name) and t.value.id == 'self')
             self.mutate(base, DEEP if deep else d + 1, node, 'store to `%s`' % norm(t))
+            if any(r == 'param:self' for r, _ in base):
+                esc = {(r, l) for r, l in vals if r.startswith('param:') and r != 'param:self'}
+                if esc:
+                    self.s.escapes.append((node, norm(t), esc))
             # weak update: the container now holds the stored value
             b = t.value
             while isinstance(b, (ast.Subscript, ast.Attribute)):
@@ -462,6 +470,11 @@ class Walker(object):
             val = st.value
             if len(st.targets) == 1 and isinstance(st.targets[0], ast.Name):
                 nm = st.targets[0].id
+                if isinstance(val, ast.Call) and isinstance(val.func, ast.Attribute) and val.func.attr == 'get' and self.is_kwargs(val.func.value) \
+                        and len(val.args) == 2 and isinstance(val.args[1], ast.Name) and val.args[1].id in self.local_funcs:
+                    if not hasattr(self, 'local_alias'):
+                        self.local_alias = {}
+                    self.local_alias[nm] = val.args[1].id
                 self.const_env.pop(nm, None)
                 if isinstance(val, ast.Call) and isinstance(val.func, ast.Attribute) and val.func.attr in ('get', 'pop') \
                         and self.is_kwargs(val.func.value) and val.args and isinstance(val.args[0], ast.Constant):
